@@ -12,7 +12,7 @@ Decided by:
    configuration space; failure = exception, timeout, wrong result type.
 What is NOT proved: the progress contract of each concrete handler (monitored at run time) and the bound on
 recursion depth (tested by pumps)."""
-import os, itertools, json
+import json, os, sys, itertools
 import common, gen, configs, trace, rxconf, rxconv, worker
 from common import enc
 
@@ -220,6 +220,49 @@ def include_oracle(ctx):
     return n
 
 
+def cross_history(ctx):
+    """Converters of different configurations used one after the other in ONE fresh interpreter: a conversion must not raise
+    because another converter (with other rules registered) ran before it.  Each ordered pair of structurally different
+    configurations: A converts the probe documents, then B does."""
+    import subprocess
+    kinds = [configs.C("core"), configs.C("all", plugins=configs.PLUGINS), configs.C("fenced", plugins=["table"], directives="fenced"), configs.C("fenced-colon", directives="fenced-colon"),
+             configs.C("rst", directives="rst"), configs.C("ast-spoiler", renderer="ast", plugins=["spoiler", "def_list", "abbr"]), configs.C("markdown", renderer="markdown")]
+    probes = ["- a\n- b\n", "1. a\n2. b\n", "* a\n\n  b\n", "- item\n:::{note} t\ntext\n:::\n", "1. item\n::::{tip}\n::::\n", "- item\n```{note}\nx\n```\n", "- item\n.. note:: t\n", "> q\n:::{note}\n:::\n",
+              "> q\n>! s\n- l\n", "term\n: def\n- l\n: d2\n", "| a |\n|---|\n| b |\n- l\n| c |\n", "*[A]: t\n\nA - l\n", "- [ ] t\n- x\n", "# h\n\n.. toc::\n", "a\n===\n- l\n---\n"]
+    sweep = gen.slot_sweep()
+    ctx.rng.shuffle(sweep)
+    probes = probes + sweep[:60]
+    n = 0
+    jobs = []
+    for a in kinds:
+        for b in kinds:
+            if a["name"] != b["name"]:
+                jobs.append((a, b))
+    if ctx.quick():
+        ctx.rng.shuffle(jobs)
+        jobs = jobs[:16] + [j for j in jobs[16:] if j[0]["name"] == "fenced-colon"]
+    here = os.path.dirname(os.path.dirname(os.path.abspath(__file__)))
+    procs = []
+    for a, b in jobs:
+        steps = [[a, d] for d in probes] + [[b, d] for d in probes]
+        pr = subprocess.Popen([sys.executable, "-B", os.path.join(here, "seqworker.py")], stdin=subprocess.PIPE, stdout=subprocess.PIPE, stderr=subprocess.PIPE, text=True)
+        procs.append((a, b, steps, pr, json.dumps({"steps": steps, "src": common.repo_src()})))
+    for a, b, steps, pr, payload in procs:
+        try:
+            so, se = pr.communicate(payload, timeout=300)
+            res = json.loads(so)
+        except Exception as e:
+            ctx.fail("crash:sequence-worker", "a conversion sequence (%s then %s) killed its interpreter or produced no result: %r" % (a["name"], b["name"], e), {"first": a, "second": b})
+            continue
+        for (cfg, doc), r in zip(steps, res):
+            n += 1
+            if r["status"] != "ok" and r.get("exc") != "RecursionError":
+                ctx.fail("crash:%s@%s#after-other-converter" % (r["exc"], r["where"]), "%s in %s converting %r under %s after converter %s was used in the same interpreter" % (r["exc"], r["where"], doc[:60], cfg["name"], a["name"]),
+                         {"config": cfg, "doc": doc, "history_first_config": a, "probes": probes[:15]})
+                break
+    return n
+
+
 def table_wire(parser, flags):
     items = []
     for k, v in parser.specification.items():
@@ -330,6 +373,7 @@ def run(ctx):
     n, n_ok = oracle(ctx, docs, cfgs)
     n += api_oracle(ctx)
     n += include_oracle(ctx)
+    n += cross_history(ctx)
     if ctx.broken and not [f for f in ctx.failures if not ctx.is_known(f["signature"])]:
         ctx.notes.append("search mode entered: " + "; ".join(ctx.broken)[:300])
         n2, _ = oracle(ctx, documents(ctx, big=True), config_space(ctx, big=True), per_doc=3)
